@@ -1,0 +1,203 @@
+//! C22 — drives `RemotePathState` and the three `State` functions around it
+//! (`handle_msg_resolve_remote`, `trigger_address_lookup`, `handle_address_lookup_item`)
+//! of a `RemoteStateActor` that is constructed but never started.
+//!
+//! Addresses are named by a small integer id; `id % 8` fixes the kind:
+//! 7 relay, 6 custom transport, 5 IPv6, otherwise IPv4.
+use std::{
+    collections::{BTreeSet, HashMap},
+    net::{Ipv4Addr, Ipv6Addr, SocketAddr, SocketAddrV4, SocketAddrV6},
+};
+
+use iroh_base::{CustomAddr, EndpointAddr, EndpointId, RelayUrl, SecretKey, TransportAddr};
+use n0_error::e;
+use n0_future::time::Instant;
+use tokio::sync::oneshot;
+
+use crate::{
+    address_lookup::{AddressLookupFailed, Error as LookupError, Item},
+    socket::{remote_map::verif_c22 as inner, transports},
+};
+
+pub fn is_relay(id: u64) -> bool {
+    id % 8 == 7
+}
+
+fn taddr(id: u64) -> TransportAddr {
+    match id % 8 {
+        7 => TransportAddr::Relay(
+            url::Url::parse(&format!("https://r{id}.verif.invalid"))
+                .unwrap()
+                .into(),
+        ),
+        6 => TransportAddr::Custom(CustomAddr::from_parts(id % 5, &id.to_be_bytes())),
+        5 => TransportAddr::Ip(SocketAddr::V6(SocketAddrV6::new(
+            Ipv6Addr::new(0x2001, 0xdb8, 0, 0, 0, 0, (id >> 16) as u16, id as u16),
+            4433,
+            0,
+            0,
+        ))),
+        _ => TransportAddr::Ip(SocketAddr::V4(SocketAddrV4::new(
+            Ipv4Addr::new(10, (id >> 24) as u8, (id >> 16) as u8, 1),
+            id as u16,
+        ))),
+    }
+}
+
+/// Result code of a resolve reply: 0 `Ok`, 1 `NoServiceConfigured`,
+/// 2 `NoResults` without errors, 3 `NoResults` carrying errors.
+fn code(r: &Result<(), AddressLookupFailed>) -> u64 {
+    match r {
+        Ok(()) => 0,
+        Err(AddressLookupFailed::NoServiceConfigured { .. }) => 1,
+        Err(AddressLookupFailed::NoResults { errors, .. }) => {
+            if errors.is_empty() {
+                2
+            } else {
+                3
+            }
+        }
+    }
+}
+
+/// Observation after one step.
+#[derive(Debug, Clone)]
+pub struct Obs {
+    /// `(request id, result code)` of every reply that arrived during the step, by request id.
+    pub replies: Vec<(u64, u64)>,
+    /// `(address id, status 0 open/1 inactive/2 unusable/3 unknown, close time in ms after start)`, by id.
+    pub paths: Vec<(u64, u8, u64)>,
+    pub pending: usize,
+    pub lookup_running: bool,
+    pub selected: Option<u64>,
+}
+
+pub struct Harness {
+    inner: inner::Harness,
+    eid: EndpointId,
+    other: EndpointId,
+    base: Instant,
+    ids: HashMap<transports::Addr, u64>,
+    waiting: Vec<(u64, oneshot::Receiver<Result<(), AddressLookupFailed>>)>,
+}
+
+impl Harness {
+    /// Must be created (and used) inside a tokio runtime with a paused clock.
+    pub fn new() -> Self {
+        let eid = SecretKey::from_bytes(&[3u8; 32]).public();
+        let other = SecretKey::from_bytes(&[4u8; 32]).public();
+        Self {
+            inner: inner::Harness::new(eid),
+            eid,
+            other,
+            base: Instant::now(),
+            ids: HashMap::new(),
+            waiting: Vec::new(),
+        }
+    }
+
+    fn addr(&mut self, id: u64) -> transports::Addr {
+        let a = match taddr(id) {
+            TransportAddr::Relay(url) => transports::Addr::from((url, self.eid)),
+            TransportAddr::Ip(s) => transports::Addr::from(s),
+            TransportAddr::Custom(c) => transports::Addr::from(c),
+            _ => unreachable!(),
+        };
+        if let Some(prev) = self.ids.insert(a.clone(), id) {
+            assert_eq!(prev, id, "address ids collide");
+        }
+        a
+    }
+
+    fn addr_set(&mut self, ids: &[u64]) -> BTreeSet<TransportAddr> {
+        ids.iter()
+            .map(|id| {
+                self.addr(*id);
+                taddr(*id)
+            })
+            .collect()
+    }
+
+    /// Ids of the known paths in the hash map's current iteration order.
+    pub fn order(&self) -> Vec<u64> {
+        self.inner.entries().iter().map(|(a, _, _)| self.ids[a]).collect()
+    }
+
+    /// `RemoteStateMessage::ResolveRemote(addrs, tx)`.
+    pub fn resolve(&mut self, req: u64, addrs: &[u64]) {
+        let set = self.addr_set(addrs);
+        let (tx, rx) = oneshot::channel();
+        self.waiting.push((req, rx));
+        self.inner.resolve(set, tx);
+    }
+
+    /// The lookup stream yields an item with these addresses (for this endpoint, or for another one).
+    pub fn lookup_item(&mut self, addrs: &[u64], wrong_endpoint: bool) -> bool {
+        let set = self.addr_set(addrs);
+        let id = if wrong_endpoint { self.other } else { self.eid };
+        let item = Item::new(EndpointAddr::from_parts(id, set).into(), "verif", None);
+        self.inner.lookup_item(Some(Ok(item)))
+    }
+
+    /// The lookup stream ends: 0 `None`, 1 `Err(NoServiceConfigured)`, 3 `Err(NoResults)` with one error.
+    pub fn lookup_end(&mut self, how: u64) -> bool {
+        let item = match how {
+            0 => None,
+            1 => Some(Err(e!(AddressLookupFailed::NoServiceConfigured))),
+            _ => Some(Err(e!(AddressLookupFailed::NoResults {
+                errors: vec![LookupError::from_err(
+                    "verif",
+                    std::io::Error::other("lookup failed"),
+                )],
+            }))),
+        };
+        self.inner.lookup_item(item)
+    }
+
+    pub fn open_path(&mut self, id: u64, select: bool) {
+        let a = self.addr(id);
+        self.inner.open_path(a, select);
+    }
+
+    pub fn abandon_path(&mut self, id: u64) {
+        let a = self.addr(id);
+        self.inner.abandon_path(&a);
+    }
+
+    pub fn last_connection_closed(&mut self) {
+        self.inner.last_connection_closed();
+    }
+
+    /// Collects the replies that arrived and the state.
+    pub fn observe(&mut self) -> Obs {
+        let mut replies = Vec::new();
+        let mut still = Vec::new();
+        for (req, mut rx) in self.waiting.drain(..) {
+            match rx.try_recv() {
+                Ok(r) => replies.push((req, code(&r))),
+                Err(oneshot::error::TryRecvError::Empty) => still.push((req, rx)),
+                // the sender was dropped without a reply
+                Err(oneshot::error::TryRecvError::Closed) => replies.push((req, 9)),
+            }
+        }
+        self.waiting = still;
+        replies.sort();
+        let mut paths: Vec<(u64, u8, u64)> = self
+            .inner
+            .entries()
+            .iter()
+            .map(|(a, c, t)| {
+                let ms = t.map_or(0, |t| t.duration_since(self.base).as_millis() as u64);
+                (self.ids[a], *c, ms)
+            })
+            .collect();
+        paths.sort();
+        Obs {
+            replies,
+            paths,
+            pending: self.inner.pending_len(),
+            lookup_running: self.inner.lookup_running(),
+            selected: self.inner.selected().map(|a| self.ids[&a]),
+        }
+    }
+}
